@@ -1,9 +1,9 @@
 package cstake
 
 import (
-	"os"
 	"fmt"
 	"math/big"
+	"os"
 	"sort"
 	"strings"
 	"testing"
@@ -408,10 +408,11 @@ type stakeActs struct {
 	lastKind    string
 	lastSlashed string // operator address of the validator slashed by the last step
 
-	slashesWithProviderDelegations int
-	cancelOK                       int
-	valRedelOK                     int
-	valUnbondOK                    int
+	slashesWithProviderDelegations  int
+	cancelOK                        int
+	valRedelOK                      int
+	valUnbondOK                     int
+	batchOK, batchMixed, batchAuthz int
 }
 
 func (a *stakeActs) valDelegate(t *rapid.T) {
